@@ -146,6 +146,36 @@ class Facts:
             return None
         return cands[0]
 
+    def resolve(self, name):
+        """resolve a callee name as printed at a call site (possibly through a re-export, with generic
+        arguments) to the defining function's facts: exact id, then generic-stripped id, then a unique
+        match on `Type::method` within the named crate."""
+        from .flow import norm
+        fn = self.fn(name, required=False)
+        if fn is not None:
+            return fn
+        n = norm(name)
+        cname = n.lstrip("<").split("::", 1)[0]
+        if cname not in self.info["files"]:
+            return None
+        c = self.crate(cname)
+        if not hasattr(c, "_norm_index"):
+            idx = {}
+            for f in c.fns:
+                idx.setdefault(norm(f["id"]), []).append(f)
+                segs = norm(f["id"]).split("::")
+                if len(segs) >= 2:
+                    idx.setdefault("~" + "::".join(segs[-2:]), []).append(f)
+            c._norm_index = idx
+        hit = c._norm_index.get(n)
+        if hit and len(hit) == 1:
+            return hit[0]
+        segs = n.split("::")
+        hit = c._norm_index.get("~" + "::".join(segs[-2:])) if len(segs) >= 2 else None
+        if hit and len(hit) == 1:
+            return hit[0]
+        return None
+
     def fns_matching(self, pred, crates=None):
         for c in self.crates(crates):
             for fn in c.fns:
